@@ -202,3 +202,38 @@ T('C08', 'twin-rename-returncode', APP, "    returncode = 1 if conflicted else 0
   edits=[(APP, "    return returncode\n", "    return status\n")])
 T('C08', 'twin-extra-logging-after-write', APP,
   "        logger.info(\"Merge result written to %s\", mfn)", "        logger.info(\"Merge result written to %s\", mfn)\n        logger.debug(\"done\")")
+
+# ------------------------------------------------------------------------------------------ C03
+M('C03', 'drop-A/AR-from-last-arm', MG, 'elif chunktype in ("AR/A", "A/AR", "A/A", "AR/AR"):', 'elif chunktype in ("AR/A", "A/A", "AR/AR"):', 'R03.1', "'A/AR'")
+M('C03', 'A/R-not-handled', MG, 'elif chunktype in ("A/P", "A/R"):', 'elif chunktype in ("A/P",):', 'R03.1', "'A/R'")
+M('C03', 'delete-R/R-arm', MG,
+  '        elif chunktype == "R/R":\n            nbdime.log.error("Not expecting conflicting two-sided removal at this point.")\n', '', 'R03.1', "'R/R'")
+M('C03', 'thediff-unbound-for-R/P', MG, '                elif p1[0].op == DiffOp.PATCH:\n                    thediff = p1[0].diff',
+  '                elif p1[0].op == DiffOp.ADDRANGE:\n                    thediff = p1[0].diff', 'R03.1', "'R/P'")
+M('C03', 'pchunktype-misses-R/P', MG, 'elif pchunktype in ("P/P", "P/R", "R/P"):', 'elif pchunktype in ("P/P", "P/R"):', 'R03.1')
+M('C03', 'dicts-delete-replace-arm', MG,
+  '        elif ld.op == DiffOp.REPLACE:\n            # (7) Replace in both local and remote, values are different,\n            #     record a conflict against original base value\n            decisions.conflict(path, [ld], [rd], item_strategy)\n', '', 'R03.2', 'replace, replace')
+M('C03', 'dicts-parent-deleted-assert-wrong', MG, '            assert rd.op == DiffOp.PATCH\n', '            assert rd.op == DiffOp.REPLACE\n', 'R03.2')
+M('C03', 'resolve-action-drops-take-max', DEC,
+  '    elif a == "take_max":\n', '    elif a == "take_maximum":\n', 'R03.3', "'take_max'")
+M('C03', 'tryresolve-emits-unknown-action', DEC, '                action = "local_then_remote"\n            elif strategy == "clear":',
+  '                action = "union_all"\n            elif strategy == "clear":', 'R03.3', "'union_all'")
+M('C03', 'fail-on-execution-count', MNB, '        "/cells/*/cell_type": "fail",\n', '        "/cells/*/cell_type": "fail",\n        "/cells/*/execution_count": "fail",\n', 'R03.4', '/cells/*/execution_count')
+M('C03', 'fail-on-minor-version', MNB, '        "/nbformat_minor": "take-max",', '        "/nbformat_minor": "fail",', 'R03.4', '/nbformat_minor')
+M('C03', 'second-producer-of-pseudo-op', STR, '    decisions_by_index = defaultdict(list)\n    level = len(base_path)',
+  '    decisions_by_index = defaultdict(list)\n    marker = dict(op="parent_deleted", key=0)\n    level = len(base_path)', 'R03.5')
+M('C03', 'patch-before-sentinel-test', STR,
+  '    decisions = MergeDecisionBuilder()\n\n    if local_diff is ParentDeleted:',
+  '    decisions = MergeDecisionBuilder()\n    local = patch(base, local_diff)\n\n    if local_diff is ParentDeleted:', 'R03.5')
+M('C03', 'no-builtin-fallback', PP, '    else:\n        return builtin_merge_render(b, l, r, strategy)',
+  '    else:\n        raise RuntimeError("no text merge tool available")', 'R03.6')
+M('C03', 'renderer-returns-text-only', PP, '    merged, status = external_merge_render(cmd.split(), b, l, r)\n    return merged, status\n',
+  '    merged, status = external_merge_render(cmd.split(), b, l, r)\n    return merged\n', 'R03.6')
+M('C03', 'which-tests-other-tool', PP, "elif config.use_diff and which('diff3'):\n        return merge_render_with_diff3", "elif config.use_diff and which('diff'):\n        return merge_render_with_diff3", 'R03.6')
+T('C03', 'twin-tuples-to-sets', MG, 'elif chunktype in ("AR/A", "A/AR", "A/A", "AR/AR"):', 'elif chunktype in {"AR/A", "A/AR", "A/A", "AR/AR"}:')
+T('C03', 'twin-split-arm', MG, '        elif chunktype in ("AR/R", "R/AR"):\n            # Identical (ensured by chunking) twosided removal with insertion just before one of them\n            decisions.onesided(path, a0, a1)\n            decisions.agreement(path, p0, p1)\n',
+  '        elif chunktype == "AR/R":\n            decisions.onesided(path, a0, a1)\n            decisions.agreement(path, p0, p1)\n        elif chunktype == "R/AR":\n            decisions.onesided(path, a0, a1)\n            decisions.agreement(path, p0, p1)\n')
+T('C03', 'twin-reorder-disjoint-arms', MG,
+  '        elif chunktype in ("A/P", "A/R"):\n            action = decisions.tryresolve(path, d0, d1, item_strategy)\n            if not action:\n                decisions.local_then_remote(path, d0, d1, conflict=True)\n        elif chunktype in ("P/A", "R/A"):\n            action = decisions.tryresolve(path, d0, d1, item_strategy)\n            if not action:\n                decisions.remote_then_local(path, d0, d1, conflict=True)\n',
+  '        elif chunktype in ("P/A", "R/A"):\n            action = decisions.tryresolve(path, d0, d1, item_strategy)\n            if not action:\n                decisions.remote_then_local(path, d0, d1, conflict=True)\n        elif chunktype in ("A/P", "A/R"):\n            action = decisions.tryresolve(path, d0, d1, item_strategy)\n            if not action:\n                decisions.local_then_remote(path, d0, d1, conflict=True)\n')
+T('C03', 'twin-new-sanity-assert', MG, '            decisions.onesided(path, d0, d1)\n', '            assert len(d0) + len(d1) <= 2\n            decisions.onesided(path, d0, d1)\n')
